@@ -16,8 +16,11 @@ for each kind of cause object, what must happen before the exception is set:
 __Pyx_Raise: it parses the C body (statement parser of rules/pC17, expression parser of engine/cexpr), and explores every path
 through it once per element of the partition with a three-valued evaluator (conditions that do not depend on the cause are
 explored both ways, every #if arm is explored), recording the PyException_SetCause / PyErr_SetObject calls met.  The resulting
-decision table is compared with the reference table above.  Constructs the explorer cannot model (loops touching the cause, direct
-stores to ->cause / ->suppress_context, calls hidden in conditional sub-expressions) are ANALYSIS-ERRORs, never guesses.
+decision table is compared with the reference table above.  What is compared is the final state of the two fields PyException_SetCause
+writes, (->cause, ->suppress_context): a call writes (x, 1), a direct store `((PyBaseExceptionObject*) value)->suppress_context = 1` /
+`Py_CLEAR(value->cause)` / `Py_XSETREF(value->cause, x)` writes that one field only (fourth round: seed C22d replaced the call for
+`from None` by the store of the flag alone, which leaves an existing __cause__ in place).  Constructs the explorer cannot model (loops
+touching the cause, stores to the fields of another object, ->context, calls hidden in conditional sub-expressions) are ANALYSIS-ERRORs.
 
 The module also holds the small generic path explorer (`Explorer`) that rules/sC28.py reuses for the BinopSlot template.
 """
@@ -210,6 +213,10 @@ class Client:
         """does a piece of text the explorer cannot model touch tracked state?"""
         return any(re.search(r'\b%s\b' % re.escape(e), text) for e in self.events)
 
+    def special(self, text, env):
+        """a simple statement the client models itself: -> list of events, or None (not special)"""
+        return None
+
 
 class Explorer:
     """All paths through a C function body (parsed by pC17.parse_body) as (env, trace) states, path-sensitive in the
@@ -262,6 +269,12 @@ class Explorer:
             env = self.assume(e[2], truth, env)
             return None if env is None else self.assume(e[3], truth, env)
         if k == 'bin' and e[1] in ('&&', '||'):
+            # `a || b` taken as true (`a && b` as false): when one operand is decided the other way, the other operand carries the outcome
+            a, b = self.tri(e[2], env), self.tri(e[3], env)
+            if a is not None and a != truth and (b is None or b == truth):
+                return self.assume(e[3], truth, env)
+            if b is not None and b != truth and (a is None or a == truth):
+                return self.assume(e[2], truth, env)
             return env
         return self.c.assume(e, truth, env)
 
@@ -325,6 +338,11 @@ class Explorer:
             return [(('goto', m.group(1)), state)]
         if re.match(r'^(break|continue)\b', text):
             raise AnalysisError('%s: %s outside a modelled loop' % (self.what, text))
+        sp = self.c.special(text, dict(state[0]))
+        if sp is not None:
+            if isinstance(sp, tuple) and len(sp) == 3 and sp[0] == 'env':      # the client also updates the path state
+                return [('fall', self.freeze(sp[1], state[1] + tuple(sp[2])))]
+            return [('fall', (state[0], state[1] + tuple(sp)))]
         first = re.match(r'[A-Za-z_]\w*', text)
         if DECL.match(text) and first and first.group(0) not in KEYWORDS:
             # declaration: type words, then declarators
@@ -478,15 +496,63 @@ CALLERS = ('PyObject_CallObject', 'PyObject_CallNoArgs', '__Pyx_PyObject_CallNoA
            'PyObject_CallFunctionObjArgs', '__Pyx_PyObject_CallOneArg')
 # reference: Python language reference 7.8 + ceval.c:do_raise (see module docstring).  value = expected list of SetCause
 # arguments on every path that raises the requested exception; 'no-raise' = the exception must not be raised at all.
-REFERENCE = {'absent': [], 'None': ['NULL'], 'class': ['NEW'], 'instance': ['CAUSE'], 'other': 'no-raise'}
-UNMODELLED = re.compile(r'->\s*(cause|suppress_context|context)\b|__cause__|__suppress_context__|PyObject_SetAttr|_PyErr_ChainExceptions|PyException_SetContext')
+# The effect is the final state of the two fields PyException_SetCause writes: (->cause, ->suppress_context); KEEP = not written.
+# PyException_SetCause(v, x) writes (x, 1) (Objects/exceptions.c); a direct store to one of the fields writes that field only.
+REFERENCE = {'absent': ('KEEP', 'KEEP'), 'None': ('NULL', '1'), 'class': ('NEW', '1'), 'instance': ('CAUSE', '1'), 'other': 'no-raise'}
+UNMODELLED = re.compile(r'->\s*context\b|__cause__|__suppress_context__|__context__|PyObject_SetAttr|_PyErr_ChainExceptions|PyException_SetContext')
+FIELD_STORE = re.compile(r'^(?P<obj>.+?)->\s*(?P<f>cause|suppress_context)\s*=(?!=)\s*(?P<rhs>.+)$', re.S)
+FIELD_MACRO = re.compile(r'^(?P<m>Py_CLEAR|Py_XSETREF|Py_SETREF|Py_XDECREF|Py_DECREF|Py_XINCREF|Py_INCREF)\s*\(\s*(?P<obj>.+?)->\s*(?P<f>cause|suppress_context)\s*(?:,(?P<rhs>.+))?\)$', re.S)
+
+
+def fold_effect(trace):
+    """(->cause, ->suppress_context) after the setcause / store events of one path"""
+    cause, sup = 'KEEP', 'KEEP'
+    for ev in trace:
+        if ev[0] == 'setcause':
+            cause, sup = ev[1], '1'
+        elif ev[0] == 'store':
+            if ev[1] == 'cause':
+                cause = ev[2]
+            else:
+                sup = ev[2]
+    return cause, sup
 
 
 class CauseClient(Client):
     events = ('PyException_SetCause', 'PyErr_SetObject', '__Pyx_ErrRestore', 'PyErr_Restore', '__Pyx_ErrRestoreInState')
 
-    def __init__(self, kind, param):
-        self.kind, self.param = kind, param
+    def __init__(self, kind, param, value_param=None):
+        self.kind, self.param, self.value_param = kind, param, value_param
+
+    def special(self, text, env):
+        m = FIELD_STORE.match(text)
+        mac = None
+        if not m:
+            m = mac = FIELD_MACRO.match(text)
+            if not m:
+                return None
+        obj = re.sub(r'\(\s*(?:struct\s+)?\w+\s*\*\s*\)', '', m.group('obj'))
+        obj = re.sub(r'[()\s]', '', obj)
+        if self.value_param is None or obj != self.value_param:
+            raise AnalysisError('a store to ->%s of `%s` (not the exception being raised) is not modelled' % (m.group('f'), m.group('obj').strip()[:40]))
+        if mac is not None and m.group('m') in ('Py_XDECREF', 'Py_DECREF', 'Py_XINCREF', 'Py_INCREF'):
+            return []
+        if mac is not None and m.group('m') == 'Py_CLEAR':
+            rhs = '0'
+        else:
+            rhs = m.group('rhs')
+            if rhs is None:
+                raise AnalysisError('%s of ->%s without a value' % (m.group('m'), m.group('f')))
+        try:
+            e = cexpr.parse(blank_strings(rhs))
+        except (cexpr.ParseError, ValueError):
+            raise AnalysisError('cannot parse the value stored to ->%s: `%s`' % (m.group('f'), rhs.strip()[:60]))
+        if m.group('f') == 'cause':
+            return [('store', 'cause', self.sym(e, env))]
+        v = e
+        while v[0] == 'cast':
+            v = v[2]
+        return [('store', 'suppress_context', str(v[1]) if v[0] == 'num' else 'UNK')]
 
     def initial(self):
         return [{self.param: 'NULL' if self.kind == 'absent' else 'CAUSE'}]
@@ -560,17 +626,19 @@ class CauseClient(Client):
         return ('raise',)
 
 
-def cause_table(body, param, what='__Pyx_Raise'):
-    """{kind: set of (raises?, tuple of SetCause argument values) over all paths and #if configurations}"""
+def cause_table(body, param, what='__Pyx_Raise', value_param='value'):
+    """{kind: set of (raises?, (final ->cause, final ->suppress_context), how) over all paths and #if configurations}"""
     if UNMODELLED.search(body):
-        raise AnalysisError('%s touches the cause/context fields directly; the decision table is not modelled for that' % what)
+        raise AnalysisError('%s touches __context__ / sets attributes by name; the decision table is not modelled for that' % what)
     table = {}
     for kind in KINDS:
         outcomes = set()
         for label, text in pp_variants(body):
-            cl = CauseClient(kind, param)
+            cl = CauseClient(kind, param, value_param)
             for env, trace in Explorer(cl, what).run(text):
-                outcomes.add((any(ev[0] == 'raise' for ev in trace), tuple(ev[1] for ev in trace if ev[0] == 'setcause')))
+                how = tuple(('PyException_SetCause(value, %s)' % ev[1]) if ev[0] == 'setcause' else ('value->%s = %s' % (ev[1], ev[2]))
+                            for ev in trace if ev[0] in ('setcause', 'store'))
+                outcomes.add((any(ev[0] == 'raise' for ev in trace), fold_effect(trace), how))
         table[kind] = outcomes
     return table
 
@@ -579,16 +647,18 @@ def table_problems(table):
     probs = []
     for kind in KINDS:
         want = REFERENCE[kind]
-        for raises, causes in sorted(table[kind]):
+        for raises, effect, how in sorted(table[kind]):
             if want == 'no-raise':
                 if raises:
                     probs.append((kind, 'a cause that is neither None nor an exception class/instance must end in TypeError, but a path raises the requested exception'
-                                  + (' (PyException_SetCause(%s))' % ', '.join(causes) if causes else '')))
+                                  + (' (%s)' % '; '.join(how) if how else '')))
                 continue
             if not raises:
                 continue            # error exits before the exception is set: not this rule's business
-            if list(causes) != want:
-                probs.append((kind, DESCR[kind] % (('PyException_SetCause(value, %s)' % ', '.join(causes)) if causes else 'no PyException_SetCause call')))
+            if effect != want:
+                probs.append((kind, DESCR[kind] % (('; '.join(how) + ' [__cause__ %s, __suppress_context__ %s]' % (
+                    {'KEEP': 'left as it was', 'NULL': 'cleared', 'NEW': '= new instance', 'CAUSE': '= the cause object'}.get(effect[0], effect[0]),
+                    {'KEEP': 'left as it was', '1': 'True'}.get(effect[1], effect[1]))) if how else 'no PyException_SetCause call')))
     seen, out = set(), []
     for k, m in probs:
         if k not in seen:
@@ -749,7 +819,7 @@ def rule_cause(ctx, floor=6):
     names = d.param_names()
     if len(names) != 4 or not names[3]:
         raise AnalysisError('__Pyx_Raise no longer has 4 named parameters')
-    table = cause_table(d.body, names[3])
+    table = cause_table(d.body, names[3], value_param=names[1])
     probs = dict(table_problems(table))
     for kind in KINDS:
         key = 'Exceptions.c:__Pyx_Raise:cause=%s' % kind
@@ -769,4 +839,90 @@ def rule_cause(ctx, floor=6):
             r.violate(key, prel, line, 'without a from-clause the 4th argument of __Pyx_Raise is %s %r, not NULL: __Pyx_Raise would attach a cause / set __suppress_context__' % desc)
     ctl = dict(table_problems(cause_table(CONTROL, 'cause', 'control')))
     r.positive_control('None' in ctl and len(ctl) == 1, '`if (cause && cause != Py_None)` skips SetCause(value, NULL) for `from None`')
+    return r
+
+
+# ======================================================================================= C22-CAUSE-SHORTCUT  (pending finding, NOT registered)
+def _implies_no_cause(test, truth):
+    """does `test` having the given truth value imply that self.cause is unset?"""
+    if isinstance(test, ast.UnaryOp) and isinstance(test.op, ast.Not):
+        return _implies_no_cause(test.operand, not truth)
+    if isinstance(test, ast.BoolOp):
+        if (isinstance(test.op, ast.And) and truth) or (isinstance(test.op, ast.Or) and not truth):
+            return any(_implies_no_cause(v, truth) for v in test.values)
+        return False
+    if isinstance(test, ast.Compare) and len(test.ops) == 1 and isinstance(test.comparators[0], ast.Constant) and test.comparators[0].value is None:
+        if isinstance(test.left, ast.Attribute) and test.left.attr == 'cause' and isinstance(test.left.value, ast.Name) and test.left.value.id == 'self':
+            return (isinstance(test.ops[0], ast.Is) and truth) or (isinstance(test.ops[0], ast.IsNot) and not truth)
+        return False
+    if isinstance(test, ast.Attribute) and test.attr == 'cause' and isinstance(test.value, ast.Name) and test.value.id == 'self':
+        return not truth
+    return False
+
+
+def shortcut_problems(cls_node):
+    """RaiseStatNode-shaped class: attributes that switch generate_execution_code to an emission without __Pyx_Raise must only be set when there is no from-clause.
+    -> (instances, problems [(key, line, message)])"""
+    methods = {n.name: n for n in cls_node.body if isinstance(n, ast.FunctionDef)}
+    gen = methods.get('generate_execution_code')
+    if gen is None:
+        raise AnalysisError('generate_execution_code vanished')
+    # attributes tested on paths that return before the __Pyx_Raise emission
+    switches = set()
+    for st in gen.body:
+        if isinstance(st, ast.If):
+            chain = [st]
+            while chain:
+                cur = chain.pop()
+                has_ret = any(isinstance(x, ast.Return) for x in ast.walk(ast.Module(body=cur.body, type_ignores=[])))
+                emits = any(isinstance(x, ast.Constant) and isinstance(x.value, str) and '__Pyx_Raise(' in x.value for x in ast.walk(ast.Module(body=cur.body, type_ignores=[])))
+                if has_ret and not emits:
+                    negated = {id(x.operand) for x in ast.walk(cur.test) if isinstance(x, ast.UnaryOp) and isinstance(x.op, ast.Not)}
+                    for x in ast.walk(cur.test):
+                        if isinstance(x, ast.Attribute) and isinstance(x.value, ast.Name) and x.value.id == 'self' and x.attr != 'cause':
+                            switches.add((x.attr, 'falsy' if id(x) in negated else 'truthy'))
+                chain += [o for o in cur.orelse if isinstance(o, ast.If)]
+        if any(isinstance(x, ast.Constant) and isinstance(x.value, str) and '__Pyx_Raise(' in x.value for x in ast.walk(st)):
+            break
+    insts, probs = [], []
+
+    def visit(stmts, guards, fname):
+        for st in stmts:
+            if isinstance(st, ast.If):
+                visit(st.body, guards + [(st.test, True)], fname)
+                visit(st.orelse, guards + [(st.test, False)], fname)
+            elif isinstance(st, (ast.For, ast.While, ast.With, ast.Try)):
+                for fld in ('body', 'orelse', 'finalbody'):
+                    visit(getattr(st, fld, []) or [], guards, fname)
+            elif isinstance(st, ast.Assign):
+                for t in st.targets:
+                    if isinstance(t, ast.Attribute) and isinstance(t.value, ast.Name) and t.value.id == 'self':
+                        kind = 'falsy' if (isinstance(st.value, ast.Constant) and not st.value.value) else 'truthy'
+                        if (t.attr, kind) not in switches:
+                            continue            # this value does not enable a shortcut
+                        key = '%s:self.%s' % (fname, t.attr)
+                        insts.append(key)
+                        if not any(_implies_no_cause(g, tr) for g, tr in guards):
+                            probs.append((key, st.lineno, '%s sets self.%s, which makes generate_execution_code raise without __Pyx_Raise() (PyErr_NoMemory / error-without-exception return), '
+                                          'also when the statement has a from-clause: `raise MemoryError from exc` loses the cause (__cause__ is None)' % (fname, t.attr)))
+    for name, fn in methods.items():
+        if name != 'generate_execution_code':
+            visit(fn.body, [], name)
+    return switches, insts, probs
+
+
+# pending finding (FINDING_1 of /tmp/strengthen4/G6): reports RaiseStatNode.analyse_expressions on the unmodified tree — NOT registered in props/C22.run()
+def rule_cause_shortcut(ctx, floor=1):
+    r = Rule('C22-CAUSE-SHORTCUT', 'RaiseStatNode: the attributes that switch code generation to a raise that bypasses __Pyx_Raise() (the only place where a cause is attached) are set only '
+             'under a test that the statement has no from-clause', floor)
+    c = ctx.index.cls('Nodes', 'RaiseStatNode')
+    if c is None:
+        raise AnalysisError('Nodes.RaiseStatNode vanished')
+    switches, insts, probs = shortcut_problems(c.node)
+    if not switches:
+        raise AnalysisError('RaiseStatNode.generate_execution_code has no shortcut that returns before emitting __Pyx_Raise(')
+    for k in insts:
+        r.inst('Nodes.RaiseStatNode.' + k, sample=k)
+    for key, line, msg in probs:
+        r.violate('Nodes.RaiseStatNode.' + key, c.module.rel, line, msg)
     return r
